@@ -33,6 +33,25 @@ def run_chunk(args):
     return tr
 
 
+def scenario_wait(args):
+    """a multicast arrives at a node that is waiting for the NETWORK_ACK of its own routed message (which never comes):
+    during the whole wait it must stay a silent receiver of its level's shared address"""
+    waiter, far, sender, lvl, delay_us, seed, jitter = args
+    addrs = [0, 0o1, 0o2, 0o3, 0o11, 0o21]
+    nodes = [dict(addr=a, kind="net") for a in addrs]
+    name = {nd["addr"]: "n%d" % i for i, nd in enumerate(nodes)}
+    ns = net.NetSim(nodes, seed=seed, jitter=jitter, gap_ms=400, lazy_drain=True,
+                    fate_fn=lambda pkt: ("P" if (len(pkt["data"]) >= 8 and pkt["data"][6] == 65 and pkt["src"] != name[waiter]) else "D"))
+    ja = net.job_write(name[waiter], far, 65, b"unconfirmed", chk=[], jid=1, budget_ms=6000)
+    jb = net.job_multicast(name[sender], b"while you wait", 1, lvl, chk=["C14w"], jid=2)
+    scripts = {name[waiter]: [(1_000_000, lambda ns_, nm: ja["fn"](ns_, nm, ja))],
+               name[sender]: [(1_000_000 + delay_us * 1000, lambda ns_, nm: jb["fn"](ns_, nm, jb))]}
+    tr = ns.run([], scripts=scripts)
+    tr["meta"] = dict(addrs=[oct(a) for a in addrs], opts={}, seed=seed, jitter=jitter, jobs=[[oct(sender), lvl, 1, 14]],
+                      waiting=[oct(waiter), oct(far)], delay_us=delay_us)
+    return tr
+
+
 def build(chk):
     quick = chk.tier == "quick"
     rng = random.Random(chk.seed + 14)
@@ -97,6 +116,11 @@ def run(chk):
     chunks = build(chk)
     with ProcessPoolExecutor(16) as ex:
         traces = list(ex.map(run_chunk, chunks))
+        waits = []
+        for (waiter, far, sender, lvl) in [(0o1, 0o2, 0o3, 1), (0o1, 0o21, 0, 1), (0o11, 0o2, 0o21, 2), (0o11, 0o3, 0, 2), (0o2, 0o11, 0o3, None)]:
+            for delay_us in ((5000, 40000) if chk.tier == "quick" else (2000, 5000, 20000, 40000, 70000)):
+                waits.append((waiter, far, sender, lvl, delay_us, chk.seed * 31 + len(waits), (3000, 40000)[len(waits) % 2]))
+        traces += list(ex.map(scenario_wait, waits))
     chk.phase("simulate")
     for t in traces:
         for j in t["meta"]["jobs"]:
